@@ -30,6 +30,7 @@ import (
 	"github.com/IrineSistiana/mosproxy/app/router"
 	"github.com/IrineSistiana/mosproxy/internal/dnsmsg"
 	"github.com/IrineSistiana/mosproxy/internal/pool"
+	"github.com/IrineSistiana/mosproxy/internal/upstream"
 	"github.com/IrineSistiana/mosproxy/internal/upstream/transport"
 )
 
@@ -580,6 +581,90 @@ func ownDohCancel(seed int64, n int) int {
 	return corrupt
 }
 
+// scenario staleretry: a one-at-a-time tcp upstream whose server closes the connection after every reply, so every
+// later exchange first picks a dead pooled connection, fails on it and retries on a new one. The retry path must
+// neither reuse a buffer it has released nor release one twice; every caller gets its own answer with its own id.
+func ownStaleRetry(seed int64, n int) int {
+	l, err := net.Listen("tcp", "127.0.0.1:0")
+	if err != nil {
+		return -1
+	}
+	defer l.Close()
+	go func() {
+		for {
+			c, err := l.Accept()
+			if err != nil {
+				return
+			}
+			go func() {
+				defer c.Close()
+				q, err := readFrame(c)
+				if err != nil {
+					return
+				}
+				m, err := dnsmsg.UnpackMsg(q)
+				if err != nil || len(m.Questions) != 1 {
+					return
+				}
+				defer dnsmsg.ReleaseMsg(m)
+				r := dnsmsg.NewMsg()
+				defer dnsmsg.ReleaseMsg(r)
+				r.Header.ID, r.Header.Response = m.Header.ID, true
+				r.Questions = append(r.Questions, m.Questions[0].Copy())
+				a := dnsmsg.NewA()
+				a.Name = nameBuf(m.Questions[0].Name)
+				a.Type, a.Class, a.TTL = dnsmsg.TypeA, dnsmsg.ClassINET, 30
+				a.A = answerFor(m.Questions[0].Name, 1, 1)
+				r.Answers = append(r.Answers, a)
+				b := make([]byte, r.Len())
+				k, _ := r.Pack(b, false, 0)
+				c.Write(frame(b[:k]))
+				time.Sleep(2 * time.Millisecond) // one query per connection
+			}()
+		}
+	}()
+	up, err := upstream.NewUpstream("tcp://"+l.Addr().String(), upstream.Opt{})
+	if err != nil {
+		return -1
+	}
+	defer up.Close()
+	r := rand.New(rand.NewSource(seed))
+	var corrupt atomic.Int64
+	for i := 0; i < n; i++ {
+		par := 1 + r.Intn(4)
+		var wg sync.WaitGroup
+		for j := 0; j < par; j++ {
+			name := wireLabels([]byte(fmt.Sprintf("s%d-%d", i, j)), []byte("stale"))
+			id := uint16(r.Intn(65536))
+			wg.Add(1)
+			go func() {
+				defer wg.Done()
+				q := buildQuery(id, name, 1, false, 0)
+				ctx, cancel := context.WithTimeout(context.Background(), 2*time.Second)
+				defer cancel()
+				m, err := up.ExchangeContext(ctx, q)
+				if err != nil || m == nil {
+					corrupt.Add(1) // a healthy server is reachable: the exchange must survive the stale connection
+					return
+				}
+				ok := m.Header.ID == id && len(m.Questions) == 1 && string(m.Questions[0].Name) == string(name) && len(m.Answers) == 1
+				if ok {
+					if a, isA := m.Answers[0].(*dnsmsg.A); !isA || a.A != answerFor(name, 1, 1) {
+						ok = false
+					}
+				}
+				if !ok {
+					corrupt.Add(1)
+				}
+				dnsmsg.ReleaseMsg(m)
+			}()
+		}
+		wg.Wait()
+		time.Sleep(5 * time.Millisecond) // let the server close the pooled connections
+	}
+	return int(corrupt.Load())
+}
+
 func runOwnership(cs string) string {
 	m := kv(cs)
 	seed := int64(atoi(m["seed"]))
@@ -599,6 +684,8 @@ func runOwnership(cs string) string {
 		corrupt = ownPrefetch(seed, atoi(m["n"]))
 	case "dohcancel":
 		corrupt = ownDohCancel(seed, atoi(m["n"]))
+	case "staleretry":
+		corrupt = ownStaleRetry(seed, atoi(m["n"]))
 	case "cachehot":
 		corrupt = ownCacheHot(seed, atoi(m["ops"]))
 	case "malformed":
@@ -628,6 +715,7 @@ func genOwnership(r *rand.Rand, thorough bool, emit func(c, cat string)) {
 		emit(fmt.Sprintf("scenario=cachehot ops=%d seed=%d", per*150, r.Intn(1<<30)), "cachehot")
 		emit(fmt.Sprintf("scenario=malformed n=%d seed=%d", per*15, r.Intn(1<<30)), "malformed")
 		emit(fmt.Sprintf("scenario=dohcancel n=%d seed=%d", per*2, r.Intn(1<<30)), "dohcancel")
+		emit(fmt.Sprintf("scenario=staleretry n=%d seed=%d", per, r.Intn(1<<30)), "staleretry")
 	}
 }
 
